@@ -49,7 +49,10 @@ func Encode(g graph.Graph) Graph {
 		it := g.From(uid)
 		for it.Next() {
 			vid := it.Node().ID()
-			if vid < uid {
+			if vid <= uid {
+				// Each edge is taken once, from its end with
+				// the lower ID. Self loops cannot be represented
+				// in graph6 and are ignored.
 				continue
 			}
 			j := indexOf[vid]
